@@ -50,7 +50,8 @@ def alphabet(cls):
            ('sampling', 2.5), ('sampling', 'same'),
            ('scale_by_freq', True), ('scale_by_freq', False),
            ('sides', 'onesided'), ('sides', 'twosided'), ('sides', 'centerdc'), ('sides', 'same'),
-           ('detrend', 'mean'), ('call', None), ('read', 'psd'), ('read', 'df'), ('read', 'frequencies')]
+           ('detrend', 'mean'), ('call', None), ('read', 'psd'), ('read', 'df'), ('read', 'frequencies'),
+           ('read', 'converted:twosided'), ('read', 'converted:centerdc'), ('read', 'converted:onesided')]
     if cls in FOURIER:
         ops += [('window', 'hamming'), ('window', 'hann'), ('window', 'same')]
     if cls == 'pcorrelogram':
@@ -200,7 +201,18 @@ def run_case(c, d):
         nonlocal ncalls, sides_log, changed
         feats = dict(feats0, datatype='complex' if st['data'] == 'C' else 'real', nfft_odd=bool(st['NFFT'] % 2),
                      stale_after='+'.join(sorted(set(changed))) or 'nothing', read=what)
+        target = what.split(':', 1)[1] if what.startswith('converted:') else None
+        if target == 'onesided' and st['data'] == 'C':
+            target = None                       # forbidden for complex data
+        conv = None
+        fr_first = None
         try:
+            if what == 'frequencies':
+                # the axis asked for *before* the values, as in plot(p.frequencies(), p.psd)
+                fr_first = live.frequencies()
+            if target is not None:
+                # get_converted_psd is a read too: it must convert the estimate of the assigned values
+                conv = np.array(live.get_converted_psd(target), copy=True, dtype=float)
             got = np.array(live.psd, copy=True)
             rep_sides = live.sides
             rep_nfft = live.NFFT
@@ -213,6 +225,8 @@ def run_case(c, d):
                 for s in sides_log:
                     q.sides = s
                 _ = q.psd
+                if target is not None:
+                    _ = q.get_converted_psd(target)
             except Exception:
                 # the assigned values admit no estimate: a fresh object raises, so must every read of this one -
                 # a failed recomputation must not leave the previous estimate behind as if it were current
@@ -240,6 +254,7 @@ def run_case(c, d):
                 q.sides = s
             ref = np.array(q.psd, copy=True)
             ref_sides = q.sides
+            ref_conv = np.array(q.get_converted_psd(target), copy=True, dtype=float) if target is not None else None
         except Exception as exc:
             c.discard('reference-raised:%s' % type(exc).__name__)
             return False
@@ -248,6 +263,12 @@ def run_case(c, d):
         det = {'history': history[-14:], 'state': {k: v for k, v in st.items()}, 'sides_replayed': list(sides_log)}
         c.compare('read:psd-equals-fresh-object', got, ref, 1e-12, feats, scale=float(np.max(np.abs(ref))) if ref.size else 1.0,
                   detail=det)
+        if fr_first is not None:
+            c.require('read:frequencies()-asked-before-psd-has-the-length-of-psd', len(fr_first) == len(got),
+                      dict(det, freqs=len(fr_first), psd=len(got)), feats)
+        if conv is not None:
+            c.compare('read:get_converted_psd-equals-fresh-object', conv, ref_conv, 1e-12, dict(feats, target=target),
+                      scale=float(np.max(np.abs(ref_conv))) if ref_conv.size else 1.0, detail=det)
         c.require('read:sides-equals-fresh-object', rep_sides == ref_sides, dict(det, got=rep_sides, want=ref_sides), feats)
         c.require('read:NFFT-is-the-assigned-value', rep_nfft == st['NFFT'], dict(det, got=rep_nfft, want=st['NFFT']), feats)
         c.compare('read:df-is-sampling/NFFT', df, st['fs'] / float(st['NFFT']), 1e-12, feats, scale=st['fs'], detail=det)
